@@ -13,12 +13,17 @@ from props import balls_common as bc
 
 ID = "C04"
 READY = True
-RULE = ("simulated machines: trough (2-5 ball switches) -> plunger (1) -> playfield, optional lock (1-2) that captures "
-        "from the playfield, optionally one ball MPF has never seen; scripts of 2-16 actions (add_ball, request, drain, "
-        "lock shot, lock release / eject_all, collect, playfield switch hit, ball leaking out of the idle lock) at "
-        "generated distances (0 ms .. 15 s, so that drains arrive mid-eject and ejects overlap); per coil pulse a "
-        "generated physical outcome (leaves after 20-120 ms and arrives after 150 ms .. beyond eject and "
-        "ball-missing timeouts, stays stuck, falls back); non-trivial = at least one eject and one rest point "
+RULE = ("simulated machines: trough (2-5 ball switches) -> plunger / staging device (1-2) -> playfield, optional lock "
+        "(1-2, switch-counted or entrance-switch-counted) that captures from the playfield and ejects to the playfield or "
+        "into the plunger (second source of the same target), optionally one ball MPF has never seen; scripts of 2-16 "
+        "actions (add_ball, request, drain, lock shot, lock release / eject_all, collect, playfield switch hit, a ball "
+        "dropping into the trough and bouncing out again, one or two balls leaking out of the idle lock) at generated "
+        "distances (0 ms .. 15 s); per coil pulse a generated physical outcome (leaves after 20-120 ms and arrives after "
+        "150 ms .. beyond eject and ball-missing timeouts, stays stuck, falls back, two balls kicked out by one pulse); "
+        "36 % of the cases come from six scenario templates with randomised numbers (two sources racing for a one-slot "
+        "target, entrance-counted lock filled beyond capacity, switch flicker at the source while its ball is late, "
+        "two balls lost from an idle device inside one count window, double kick-out with two ejects queued, source "
+        "getting ready while a two-ball target is mid-eject); non-trivial = at least one eject and one rest point "
         "reached after it; distinct by case hash")
 TRUSTED_BASE = [
     "Coq 8.16.1 kernel (coqc), vm_compute to replay recorded runs in the model; no native_compute",
@@ -30,9 +35,10 @@ TRUSTED_BASE = [
     "the oracle",
 ]
 ASSUMPTIONS = [
-    "topologies: one playfield; switch-counted devices; coil ejectors; confirm_eject_type target. Not generated: "
-    "entrance-switch counters, mechanical/player-controlled ejects (ball skipping), jam switches, ball search, "
-    "several playfields",
+    "topologies: one playfield; switch-counted and entrance-switch-counted devices; pulse-coil ejectors; "
+    "confirm_eject_type target. Not generated: mechanical/player-controlled ejects (ball skipping), jam switches, "
+    "ball search, several playfields, entrance_switch_full_timeout; an entrance-counted device never gets a stuck or "
+    "falling-back ball (it cannot notice either, its count would be wrong by design)",
     "the debounce / settle layer (switch_counter._run, entrance_count_delay, exit_count_delay) is validated by the "
     "oracle on sampled runs, not proved: the ledger takes the counter's results (LCount) as input",
 ]
